@@ -24,7 +24,8 @@ func c12(c *core.Check) {
 		"(ii) FileManager.Feed: an item without a name while no target exists returns an error; every append to fm.files is preceded in its block by fm.index[name] = len(fm.files) (index and slice stay in lockstep). " +
 		"(iii) BuildResponse appends exactly one item per element of fm.files, in order, with that file's name, and applies every patch registered under that file's name through the replacer. " +
 		"(iv) the replacement is order-independent (markers found in a file are prefix-free; see C07's table entry, re-verified here). " +
-		"NOT decided: everything history-dependent (rename probing, duplicate drop), patches for markers that do not occur."
+		"(v) on go/ssa: whenever an iteration of Feed stores a file under a key (fm.index[K] = len(fm.files)), the loop-carried target of the following unnamed patches is that same K on every path through the store (also after a rename). " +
+		"NOT decided: the rename probe loop itself (uniqueness of the fresh name), duplicate drop, patches for markers that do not occur."
 	c.RuleText = "one obligation per alphabet source, literal word, append site and path rule"
 	c.Assume = []string{"plugin-supplied insertion-point names use the same alphabet (a name outside it is never found by the remover)"}
 	// (i) alphabet
@@ -238,6 +239,7 @@ func identifierAlphabet() ([]rune, string) {
 }
 
 func c12feed(c *core.Check) {
+	c12patchTarget(c)
 	fd := c.Prog.FuncDecl("generator", "FileManager.Feed")
 	key := "generator.(FileManager).Feed"
 	if fd == nil {
